@@ -365,7 +365,7 @@ func init() {
 		if tier == "thorough" {
 			mid = -1
 		}
-		js = append(js, symJobs("c20", "ZZ_C20_Sym", []seqCfg{{"be_writing", 2, 0, 0, 0}}, mid, 1)...)
+		js = append(js, symJobs("c20", "ZZ_C20_Sym", []seqCfg{{"be_writing", 2, 0, 0, 0}, {"bw_w10_pending", 0, 0, 2, 10}}, mid, 1)...)
 		ap := 2
 		if tier == "thorough" {
 			ap = 3
